@@ -69,8 +69,8 @@ class Pool:
         (division / modulo by zero) never occurs inside generated netlists"""
         if self.emit is None:
             return ref
-        one = self.emit('Constant', {'value': 1}, [], [w])[0]
-        return self.emit('Or2', {}, [ref, one], [w])[0]
+        one = self.emit('Constant', {'value': 1}, [], [w], guard=True)[0]
+        return self.emit('Or2', {}, [ref, one], [w], guard=True)[0]
 
     def pick(self, w):
         c = [s for s in self.sigs if s[1] == w]
